@@ -163,3 +163,137 @@ Proof.
       rewrite (Hz eq_refl) in *. rewrite Erb in *. change (zlen []) with 0 in *. rewrite app_nil_r in EIH. cbn [app] in *.
       rewrite Z.add_0_r in *. rewrite EIH. f_equal. f_equal. rewrite <- app_assoc. reflexivity.
 Qed.
+
+(* ---------------------------------------------------------------- Present words *)
+Definition pw_bytes (ps : list Z) : list Z := concat (map rt_put32 ps).
+Lemma zlen_pw_bytes ps : zlen (pw_bytes ps) = 4 * zlen ps.
+Proof. induction ps as [|p t IH]; [reflexivity|]. unfold pw_bytes in *. cbn [map concat]. rewrite zlen_app, IH, zlen_cons. change (zlen (rt_put32 p)) with 4. lia. Qed.
+
+Lemma rt_ser_present_layout : forall ps W k, 4 * zlen ps <= k -> zlen W + k <= 65535 ->
+  rt_ser_present ps (W ++ zeros k) (zlen W) = Ok ((W ++ pw_bytes ps) ++ zeros (k - 4 * zlen ps), zlen W + 4 * zlen ps).
+Proof.
+  induction ps as [|p t IH]; intros W k Hk Hb.
+  - cbn [rt_ser_present pw_bytes map concat]. rewrite app_nil_r. change (zlen []) with 0. rewrite Z.mul_0_r, Z.sub_0_r, Z.add_0_r. reflexivity.
+  - rewrite zlen_cons in *. pose proof (zlen_nonneg t). pose proof (zlen_nonneg W). cbn [rt_ser_present].
+    pose proof (wr_zero_tail W k 0 (rt_put32 p) ltac:(lia) ltac:(change (zlen (rt_put32 p)) with 4; lia)) as WR.
+    rewrite Z.add_0_r in WR. rewrite WR. cbn [obind]. change (zlen (rt_put32 p)) with 4. change (zeros 0) with (@nil Z). cbn [app].
+    rewrite u16_small by lia. replace (zlen W + 4) with (zlen (W ++ rt_put32 p)) by (rewrite zlen_app; reflexivity).
+    rewrite IH by (rewrite ?zlen_app; change (zlen (rt_put32 p)) with 4; lia).
+    unfold pw_bytes. cbn [map concat]. rewrite zlen_app. change (zlen (rt_put32 p)) with 4.
+    f_equal. f_equal; [rewrite <- !app_assoc; do 3 f_equal; unfold zeros; f_equal; lia|lia].
+Qed.
+
+Lemma idx_at (pre : list Z) x post i : i = zlen pre -> cd_idx (pre ++ x :: post) i = Ok x.
+Proof.
+  intros ->. pose proof (zlen_nonneg pre). rewrite cd_idx_ok by (zl; pose proof (zlen_nonneg post); lia). f_equal.
+  unfold zlen. rewrite Nat2Z.id. rewrite app_nth2 by lia. rewrite Nat.sub_diag. reflexivity.
+Qed.
+
+Lemma le16_at pre a b post i : i = zlen pre -> rt_le16 (pre ++ a :: b :: post) i = Ok (a + 256 * b).
+Proof.
+  intros ->. unfold rt_le16. rewrite idx_at by reflexivity. cbn [obind].
+  change (pre ++ a :: b :: post) with (pre ++ [a] ++ b :: post). rewrite app_assoc.
+  rewrite idx_at by (rewrite zlen_app; reflexivity). reflexivity.
+Qed.
+
+Lemma le32_put32 pre q post i : i = zlen pre -> 0 <= q < 4294967296 -> rt_le32 (pre ++ rt_put32 q ++ post) i = Ok q.
+Proof.
+  intros -> Hq. unfold rt_le32, rt_put32. cbn [app]. rewrite le16_at by reflexivity. cbn [obind].
+  change (pre ++ q mod 256 :: (q / 256) mod 256 :: (q / 65536) mod 256 :: (q / 16777216) mod 256 :: post)
+    with (pre ++ [q mod 256; (q / 256) mod 256] ++ (q / 65536) mod 256 :: (q / 16777216) mod 256 :: post).
+  rewrite app_assoc. rewrite le16_at by (rewrite zlen_app; reflexivity). cbn [obind]. f_equal. lia.
+Qed.
+
+(* the chain of words: every word but the last has the extension bit *)
+Fixpoint chain_ok (p : Z) (qs : list Z) : Prop :=
+  0 <= p < 4294967296 /\
+  match qs with [] => Z.testbit p 31 = false | q :: t => Z.testbit p 31 = true /\ chain_ok q t end.
+
+Lemma rt_present_loop_layout : forall qs p pre post fuel acc, chain_ok p qs -> (length qs <= fuel)%nat -> 4 <= zlen pre ->
+  zlen (pre ++ pw_bytes qs ++ post) <= 65535 ->
+  rt_present_loop fuel (pre ++ pw_bytes qs ++ post) (zlen (pre ++ pw_bytes qs ++ post)) (zlen pre - 4) p acc =
+    (acc ++ qs, Ok (zlen pre - 4 + 4 * zlen qs)).
+Proof.
+  induction qs as [|q t IH]; intros p pre post fuel acc Hc Hf Hp Hb.
+  - destruct Hc as (_ & Hc). destruct fuel; cbn [rt_present_loop]; rewrite Hc, app_nil_r; change (zlen []) with 0; rewrite Z.mul_0_r, Z.add_0_r; reflexivity.
+  - destruct Hc as (_ & Hx & Hc). destruct fuel as [|f]; [cbn in Hf; lia|]. cbn [rt_present_loop]. rewrite Hx.
+    pose proof (zlen_nonneg t). pose proof (zlen_nonneg post).
+    assert (Ln : zlen (pre ++ pw_bytes (q :: t) ++ post) = zlen pre + 4 * (1 + zlen t) + zlen post)
+      by (rewrite !zlen_app, zlen_pw_bytes, zlen_cons; lia).
+    rewrite u16_small by lia. replace (zlen pre - 4 + 4) with (zlen pre) by lia.
+    set (D := pre ++ pw_bytes (q :: t) ++ post) in *.
+    destruct (zlen pre + 4 >? zlen D) eqn:E; [lia|].
+    assert (Hq : 0 <= q < 4294967296) by (destruct t; cbn in Hc; tauto).
+    assert (ED : D = pre ++ rt_put32 q ++ (pw_bytes t ++ post))
+      by (unfold D, pw_bytes; cbn [map concat]; rewrite <- !app_assoc; reflexivity).
+    assert (L32 : rt_le32 D (zlen pre) = Ok q) by (rewrite ED; apply le32_put32; [reflexivity|exact Hq]).
+    rewrite L32.
+    assert (ED2 : D = (pre ++ rt_put32 q) ++ pw_bytes t ++ post) by (rewrite ED, <- !app_assoc; reflexivity).
+    assert (P4 : zlen pre = zlen (pre ++ rt_put32 q) - 4) by (rewrite zlen_app; change (zlen (rt_put32 q)) with 4; lia).
+    rewrite P4. rewrite ED2.
+    rewrite IH; [|exact Hc|cbn in Hf; lia|rewrite zlen_app; change (zlen (rt_put32 q)) with 4; lia|rewrite <- ED2; exact Hb].
+    rewrite <- app_assoc. cbn [app]. rewrite zlen_app, zlen_cons. change (zlen (rt_put32 q)) with 4. f_equal. f_equal. lia.
+Qed.
+
+(* ---------------------------------------------------------------- chains of radiotap namespaces *)
+Fixpoint chain_bytes (ps : list Z) (rvs : list (list (list Z))) (off : Z) : list Z :=
+  match ps, rvs with
+  | p :: t, v :: r => let b := ns_bytes p rt_fields v off in b ++ chain_bytes t r (off + zlen b)
+  | _, _ => []
+  end.
+Fixpoint rtchain_ok (ps : list Z) (rvs : list (list (list Z))) : Prop :=
+  match ps, rvs with
+  | [], [] => True
+  | p :: t, v :: r => Forall2 (row_wf p) rt_fields v /\
+                      (t <> [] -> Z.testbit p 31 = true /\ Z.testbit p 29 = true) /\ (t = [] -> Z.testbit p 31 = false) /\ rtchain_ok t r
+  | _, _ => False
+  end.
+
+Lemma rt_ser_loop_layout : forall ps rvs vn W k, rtchain_ok ps rvs -> 106 * zlen ps <= k -> zlen W + k <= 65535 ->
+  let CB := chain_bytes ps rvs (zlen W) in
+  rt_ser_loop ps true vn rvs [] (W ++ zeros k) (zlen W) = Ok ((W ++ CB) ++ zeros (k - zlen CB), zlen W + zlen CB) /\ zlen CB <= 106 * zlen ps.
+Proof.
+  induction ps as [|p t IH]; intros rvs vn W k Hc Hk Hb; cbv zeta.
+  - destruct rvs; [|contradiction]. cbn [chain_bytes rt_ser_loop]. rewrite app_nil_r. change (zlen []) with 0.
+    rewrite Z.sub_0_r, Z.add_0_r. split; [reflexivity|lia].
+  - destruct rvs as [|v r]; [contradiction|]. destruct Hc as (Hv & Hne & He & Hc). rewrite zlen_cons in *. pose proof (zlen_nonneg t).
+    cbn [chain_bytes rt_ser_loop].
+    destruct (rt_ser_fields_layout p rt_fields v W k rt_fields_ok ltac:(rewrite fsum_fields; lia) Hb) as (E & L). rewrite fsum_fields in L.
+    rewrite E. cbn [obind fst snd]. set (NB := ns_bytes p rt_fields v (zlen W)) in *. pose proof (zlen_nonneg NB).
+    destruct t as [|q t'].
+    + destruct r; [|destruct Hc]. cbn [rt_ser_loop chain_bytes]. rewrite app_nil_r. split; [reflexivity|]. change (zlen []) with 0. lia.
+    + destruct (Hne ltac:(discriminate)) as (_ & H29). rewrite H29.
+      replace (zlen W + zlen NB) with (zlen (W ++ NB)) by (rewrite zlen_app; reflexivity).
+      destruct (IH r (Z.testbit p 30) (W ++ NB) (k - zlen NB) Hc ltac:(lia) ltac:(rewrite zlen_app; lia)) as (E2 & L2).
+      rewrite E2. rewrite !zlen_app in *. split; [|lia].
+      f_equal. f_equal; [rewrite <- !app_assoc; do 3 f_equal; unfold zeros; f_equal; lia|lia].
+Qed.
+
+Lemma rtchain_nil r : rtchain_ok [] r -> r = [].
+Proof. destruct r; [reflexivity|contradiction]. Qed.
+
+Lemma rt_ns_loop_layout : forall ps rvs vn W rv rest, rtchain_ok ps rvs -> zlen W + 106 * zlen ps <= 65535 ->
+  zlen (W ++ chain_bytes ps rvs (zlen W) ++ rest) <= 65535 -> ps <> [] ->
+  rt_ns_loop (W ++ chain_bytes ps rvs (zlen W) ++ rest) ps true vn (zlen W) rv [] = (rv ++ rvs, [], Ok tt).
+Proof.
+  induction ps as [|p t IH]; intros rvs vn W rv rest Hc Hs Hb Hne; [congruence|].
+  destruct rvs as [|v r]; [contradiction|]. destruct Hc as (Hv & Hnx & He & Hc). rewrite zlen_cons in *. pose proof (zlen_nonneg t).
+  cbn [chain_bytes rt_ns_loop] in *. set (NB := ns_bytes p rt_fields v (zlen W)) in *.
+  set (CB := chain_bytes t r (zlen W + zlen NB)) in *.
+  assert (ED : W ++ (NB ++ CB) ++ rest = W ++ NB ++ (CB ++ rest)) by (rewrite <- !app_assoc; reflexivity).
+  unfold rt_ns_dec. rewrite ED.
+  pose proof (rt_fields_loop_layout p rt_fields v Hv rt_fields_ok W [] (CB ++ rest) ltac:(rewrite fsum_fields; lia)
+                ltac:(fold NB; rewrite <- ED; exact Hb)) as EF. fold NB in EF. rewrite EF. cbn [app].
+  destruct t as [|q t'].
+  - rewrite (He eq_refl). apply rtchain_nil in Hc. subst r. reflexivity.
+  - destruct (Hnx ltac:(discriminate)) as (H31 & H29). rewrite H31, H29.
+    assert (ED3 : W ++ NB ++ CB ++ rest = (W ++ NB) ++ CB ++ rest) by (rewrite <- !app_assoc; reflexivity).
+    rewrite ED3. replace (zlen W + zlen NB) with (zlen (W ++ NB)) by (rewrite zlen_app; reflexivity).
+    unfold CB. replace (zlen W + zlen NB) with (zlen (W ++ NB)) by (rewrite zlen_app; reflexivity).
+    pose proof (zlen_nonneg NB).
+    rewrite IH; [rewrite <- app_assoc; reflexivity|exact Hc| |unfold CB in Hb; rewrite !zlen_app in Hb; rewrite !zlen_app; lia|discriminate].
+    rewrite zlen_app.
+    (* the namespace just read occupies at most 106 octets *)
+    destruct (rt_ser_fields_layout p rt_fields v W 106 rt_fields_ok ltac:(rewrite fsum_fields; lia) ltac:(lia)) as (_ & L).
+    rewrite fsum_fields in L. fold NB in L. lia.
+Qed.
